@@ -1458,6 +1458,10 @@ class Executor(Engine):
                         st.pc.append(simp(z3.Not(cond)))
                         self._goto(st, ins.extra[1], ins)
                     else:
+                        # neither side is feasible: the path condition itself has become unsatisfiable since the last branch, through an
+                        # ASSUMED clause (a callee's postcondition, a definition, an invariant, a checked-then-assumed safety condition).
+                        # Recorded: a contradictory assumption would make the rest of the path vacuous (see check.finish)
+                        self.covers.append((self.top_contract.name, 'dead-path', '%s:%s' % (short_fn(st.frames[-1].fn.demangled), ins.line)))
                         raise PathEnd()
             elif op == 'switch':
                 v = self.ev(st, *ins.args[0])
@@ -1468,6 +1472,7 @@ class Executor(Engine):
                 alts = conds + [(dflt, ins.extra['default'])]
                 feas = [(c, l) for c, l in alts if self.feasible(st, c)]
                 if not feas:
+                    self.covers.append((self.top_contract.name, 'dead-path', '%s:%s' % (short_fn(st.frames[-1].fn.demangled), ins.line)))
                     raise PathEnd()
                 for c, l in feas[1:]:
                     other = st.copy()
